@@ -4,6 +4,7 @@ The connection machine (`run`, `step`, `Cfg`) is the one of C01; `dataLen i trac
 body bytes handed to the application for request number `i`.
 -/
 import TornadoModel.C04.Lemmas
+import TornadoModel.C04.Monotone
 namespace TornadoModel.C04
 open TornadoModel.C01 TornadoModel.C04.Spec
 
@@ -114,14 +115,42 @@ theorem gz_oversize_rejected (limit : Nat) (g : GSt) (comp out : Str) (tl : Nat)
 example : (gzRun 5 [([1, 2, 3], [([9, 9, 9], 1), ([9, 9, 9], 0)])] {}).rejected = true ∧
     (gzRun 5 [([1, 2, 3], [([9, 9, 9], 1), ([9, 9, 9], 0)])] {}).delivered = [[9, 9, 9]] := by decide
 
-/-! ## requests within the limits are unaffected (stated; tie only)
+/-! ## requests within the limits are unaffected
 
-Raising the limits does not change the run of a stream that never hit them. -/
-def limits_monotone_goal : Prop :=
+Raising the limits (header block, default body limit, per-request overrides) does not change the run of a stream that
+never hit them: by a forward simulation (`C04/Monotone.lean`) the two runs agree step by step on everything except the
+stored limit, as long as the run under the smaller limits has not closed the connection. -/
+theorem limits_monotone :
   ∀ (cfg cfg' : Cfg) (segs : List Str),
     cfg.noKeepAlive = cfg'.noKeepAlive → cfg.maxHeader ≤ cfg'.maxHeader →
     (∀ i, effLimit cfg i ≤ effLimit cfg' i) →
     Ev.closed ∉ (run cfg init segs).out →
-    (run cfg' init segs).out = (run cfg init segs).out
+    (run cfg' init segs).out = (run cfg init segs).out := by
+  intro cfg cfg' segs hnk hmh hlim hnc
+  obtain ⟨l', h⟩ := sim_run hnk hmh hlim segs init 0 (Nat.le_refl _) hnc
+  have e : setL init 0 = init := rfl
+  rw [e] at h
+  rw [h]; rfl
+
+/-- the whole final state agrees, except for the stored limit of the current request -/
+theorem limits_monotone_state (cfg cfg' : Cfg) (segs : List Str)
+    (hnk : cfg.noKeepAlive = cfg'.noKeepAlive) (hmh : cfg.maxHeader ≤ cfg'.maxHeader)
+    (hlim : ∀ i, effLimit cfg i ≤ effLimit cfg' i) (hnc : Ev.closed ∉ (run cfg init segs).out) :
+    ∃ l', run cfg' init segs = { (run cfg init segs) with limit := l' } :=
+  sim_run hnk hmh hlim segs init 0 (Nat.le_refl _) hnc
+
+-- non-vacuity: limits 3 / override 5 against the defaults; a 5-byte body served without closing
+example : ∀ i, effLimit { maxBody := 3, overrides := [some 5] } i ≤ effLimit {} i := by
+  intro i
+  match i with
+  | 0 => decide
+  | i + 1 => simp [effLimit]
+example : Ev.closed ∉ (run smallCfg init [fiveByteReq]).out := by
+  have h : (run smallCfg init [fiveByteReq]).out.filter (fun e => decide (e = Ev.closed)) = [] := by decide
+  intro hm
+  have h2 : Ev.closed ∈ (run smallCfg init [fiveByteReq]).out.filter (fun e => decide (e = Ev.closed)) :=
+    List.mem_filter.mpr ⟨hm, decide_eq_true rfl⟩
+  rw [h] at h2
+  exact absurd h2 List.not_mem_nil
 
 end TornadoModel.C04
